@@ -140,7 +140,7 @@ def checks():
     return [
         HypCheck(
             'unknown-options', cases, run_case,
-            budget={'quick': (16, 60), 'thorough': (16, 5000)},
+            budget={'quick': (16, 150), 'thorough': (16, 5000)},
             rule='foreign well-formed files x 1-4 headers x 1-3 unknown '
                  'key=value pairs (keys incl. names of reader fields and '
                  'object-model attributes, values incl. "/"-leading, long, '
